@@ -53,7 +53,7 @@ var faultKinds = []simapi.FaultKind{simapi.Reject, simapi.LostReply, simapi.Stop
 
 func (e *C11) Name() string { return "fault.c11" }
 func (e *C11) Rule() string {
-	return "corpus = first deployment, rolling update, canary start (also with a percentage of the nodes a canary node selector matches), promotion by time, promotion by validate, failure and rollback (with and without canary pods), node removal, settings change, migration from a DaemonSet; the failure-free run of each scenario is recorded, then re-run once per (API call index k, fault kind) with the fault armed at the k-th call issued by a controller: both tiers = every call x 4 kinds, thorough adds 20000 seeded pairs; stop faults void the rest of the invocation and all reconciler instances are rebuilt with empty in-memory state; all safety monitors run at every step and the final abstract state after failure-free recovery rounds is compared with the failure-free run's; non-trivial = distinct (scenario, call signature, fault kind) tuples"
+	return "corpus = first deployment, rolling update, canary start (also with a percentage of the nodes a canary node selector matches), promotion by time, promotion by validate, failure and rollback (with and without canary pods), node removal, settings change, migration from a DaemonSet (also a second one after the ExtendedDaemonSet and the DaemonSet were deleted and re-created under the same names); the failure-free run of each scenario is recorded, then re-run once per (API call index k, fault kind) with the fault armed at the k-th call issued by a controller: both tiers = every call x 4 kinds, thorough adds 20000 seeded pairs; stop faults void the rest of the invocation and all reconciler instances are rebuilt with empty in-memory state; all safety monitors run at every step and the final abstract state after failure-free recovery rounds is compared with the failure-free run's; non-trivial = distinct (scenario, call signature, fault kind) tuples"
 }
 
 func c11Settle(w *World, rounds int) { c11SettleStep(w, rounds, 2*time.Second) }
@@ -230,6 +230,27 @@ func c11Scripts() []c11Script {
 			_ = w.User.Create(nil, st)
 			w.tracef("user: create setting big (zone=a, cpu 2)")
 			c11Settle(w, 6)
+		}},
+		{"second-migration-after-re-creation-under-the-same-name", func(w *World) {
+			// a finished migration whose old DaemonSet was deleted, backed out (ExtendedDaemonSet deleted, DaemonSet
+			// redeployed) and started again under the same names while the same controller process keeps running:
+			// whatever the process remembers from the first time must not decide the second
+			c11Nodes(w, 4)
+			w.NewOldDaemonSet("ns1", "old-agent", map[string]string{"app": "old-agent"}, []string{"n0", "n1", "n2"})
+			ed := c11EDS(nil)
+			ed.Annotations = map[string]string{v1.ExtendedDaemonSetOldDaemonsetAnnotationKey: "old-agent"}
+			w.CreateEDS(ed.DeepCopy())
+			w.quiet(func() {
+				c11Settle(w, 9)
+				w.S.Remove(simapi.KindDS, "ns1", "old-agent")
+				w.tracef("user: delete the old DaemonSet ns1/old-agent (migration finished)")
+				c11Settle(w, 3)
+				w.DeleteEDSCascade("ns1", "foo")
+				c11Settle(w, 2)
+				w.NewOldDaemonSet("ns1", "old-agent", map[string]string{"app": "old-agent"}, []string{"n0", "n1", "n2"})
+			})
+			w.CreateEDS(ed.DeepCopy())
+			c11Settle(w, 8)
 		}},
 		{"migration", func(w *World) {
 			c11Nodes(w, 4)
